@@ -19,6 +19,7 @@ import (
 	"sync/atomic"
 	"time"
 
+	"github.com/iotaledger/hive.go/runtime/options"
 	"github.com/iotaledger/hive.go/runtime/syncutils"
 	"github.com/iotaledger/hive.go/runtime/workerpool"
 
@@ -163,14 +164,144 @@ type dirT struct {
 	B bool   `json:"b,omitempty"`
 }
 
+// how a pool is made: by workerpool.New or by Group.CreatePool, with the caller's option list IN ORDER (an option may be
+// left out or occur more than once). Workers/Cancel/Panic of a case are the EXPECTED effective values (harness's own
+// resolution: defaults of New, then the group's default, then the caller's options, last wins); the Coq side resolves the
+// same list on its own (Options.v).
+type optT struct {
+	K string `json:"k"` // workers cancel panic
+	N int    `json:"n"`
+	B bool   `json:"b"`
+}
+
+func (o optT) String() string {
+	switch o.K {
+	case "workers":
+		return fmt.Sprintf("WithWorkerCount(%d)", o.N)
+	case "cancel":
+		return fmt.Sprintf("WithCancelPendingTasksOnShutdown(%v)", o.B)
+	}
+	return fmt.Sprintf("WithPanicOnSubmitAfterShutdown(%v)", o.B)
+}
+
 type scriptCase struct {
 	Name    string  `json:"name"`
+	Via     string  `json:"via"` // new | group
+	Opts    []optT  `json:"opts"`
+	NCPU    int     `json:"ncpu"`
 	Workers int     `json:"workers"`
 	Cancel  bool    `json:"cancel"`
 	Panic   bool    `json:"panic_opt"`
 	Prog    [][]int `json:"prog"`
 	Gated   []bool  `json:"gated"`
 	Script  []dirT  `json:"script"`
+	BusyAt  int     `json:"busy_at,omitempty"` // > 0: after this directive every worker must be executing a (gated) task
+}
+
+func resolve(via string, opts []optT) (w int, cancel, panicOpt bool) {
+	w, cancel, panicOpt = 2*runtime.NumCPU(), via == "group", false
+	for _, o := range opts {
+		switch o.K {
+		case "workers":
+			w = o.N
+		case "cancel":
+			cancel = o.B
+		case "panic":
+			panicOpt = o.B
+		default:
+			vx.Die("bad option %q", o.K)
+		}
+	}
+	return
+}
+
+func goOpts(opts []optT) (out []options.Option[workerpool.WorkerPool]) {
+	for _, o := range opts {
+		switch o.K {
+		case "workers":
+			out = append(out, workerpool.WithWorkerCount(o.N))
+		case "cancel":
+			out = append(out, workerpool.WithCancelPendingTasksOnShutdown(o.B))
+		case "panic":
+			out = append(out, workerpool.WithPanicOnSubmitAfterShutdown(o.B))
+		}
+	}
+	return
+}
+
+func optsCoq(opts []optT) string {
+	return vx.ListOf(opts, func(o optT) string {
+		switch o.K {
+		case "workers":
+			return fmt.Sprintf("PWorkers %d", o.N)
+		case "cancel":
+			return "PCancel " + vx.Bool(o.B)
+		}
+		return "PPanic " + vx.Bool(o.B)
+	})
+}
+
+// explicit: every option given once, in the order workers, cancel, panic
+func explicitOpts(w int, cancel, panicOpt bool) []optT {
+	return []optT{{K: "workers", N: w}, {K: "cancel", B: cancel}, {K: "panic", B: panicOpt}}
+}
+
+// a random way to ask for the effective configuration (w, cancel, panicOpt): options equal to the default may be left
+// out, an option may be preceded by an earlier occurrence with another value (which must lose), order shuffled
+func representOpts(rng *vx.Rng, via string, w int, cancel, panicOpt bool) []optT {
+	var decoys, reals []optT
+	if !(w == 2*runtime.NumCPU() && rng.Chance(1, 2)) {
+		reals = append(reals, optT{K: "workers", N: w})
+		if rng.Chance(1, 6) {
+			decoys = append(decoys, optT{K: "workers", N: vx.Pick(rng, []int{1, 2, w + 1, 2 * runtime.NumCPU()})})
+		}
+	}
+	if !(cancel == (via == "group") && rng.Chance(1, 2)) {
+		reals = append(reals, optT{K: "cancel", B: cancel})
+		if rng.Chance(1, 5) {
+			decoys = append(decoys, optT{K: "cancel", B: !cancel})
+		}
+	}
+	if !(!panicOpt && rng.Chance(1, 2)) {
+		reals = append(reals, optT{K: "panic", B: panicOpt})
+		if rng.Chance(1, 6) {
+			decoys = append(decoys, optT{K: "panic", B: !panicOpt})
+		}
+	}
+	shuffle := func(x []optT) {
+		for i := len(x) - 1; i > 0; i-- {
+			j := rng.Intn(i + 1)
+			x[i], x[j] = x[j], x[i]
+		}
+	}
+	shuffle(decoys)
+	shuffle(reals)
+	return append(decoys, reals...)
+}
+
+// fills in the expected effective configuration
+func (sc *scriptCase) fin() *scriptCase {
+	if sc.Via == "" {
+		sc.Via = "new"
+	}
+	sc.NCPU = runtime.NumCPU()
+	sc.Workers, sc.Cancel, sc.Panic = resolve(sc.Via, sc.Opts)
+	return sc
+}
+
+// worker counts around and above every machine-derived constant of the package (default 2*NumCPU) and of the runtime
+func machineWorkerCounts() []int {
+	n, g := runtime.NumCPU(), runtime.GOMAXPROCS(0)
+	seen := map[int]bool{}
+	var out []int
+	for _, v := range []int{n - 1, n, n + 1, 2*n - 1, 2 * n, 2*n + 1, 4 * n, 4*n + 1, g + 1, 2*g + 1} {
+		if v >= 1 && !seen[v] && (v <= 320 || v == 2*n+1) {
+			seen[v] = true
+			out = append(out, v)
+		}
+	}
+	sort.Ints(out)
+	return out
 }
 
 type obsT struct {
@@ -193,6 +324,8 @@ type runner struct {
 	acc      []int
 	inc, dec atomic.Int64
 	done     []*atomic.Bool
+	inGate   atomic.Int64      // tasks currently executing and parked at the task gate
+	grp      *workerpool.Group // via == group
 }
 
 func (r *runner) submit(t int) {
@@ -214,7 +347,9 @@ func (r *runner) submit(t int) {
 func (r *runner) taskFn(t int) func() {
 	return func() {
 		if t < len(r.sc.Gated) && r.sc.Gated[t] {
+			r.inGate.Add(1)
 			r.taskGate.wait()
+			r.inGate.Add(-1)
 		}
 		if t < len(r.sc.Prog) {
 			for _, u := range r.sc.Prog[t] {
@@ -279,17 +414,37 @@ func runScript(sc *scriptCase) scriptResult {
 	r := &runner{sc: sc, hooks: &hookCtl{}}
 	curHooks.Store(r.hooks)
 	defer curHooks.Store(nil)
-	r.wp = workerpool.New("c16", workerpool.WithWorkerCount(sc.Workers), workerpool.WithCancelPendingTasksOnShutdown(sc.Cancel),
-		workerpool.WithPanicOnSubmitAfterShutdown(sc.Panic))
-	r.wp.PendingTasksCounter.Subscribe(func(o, n int) {
+	var res scriptResult
+	problem := func(f string, a ...any) { res.Problems = append(res.Problems, fmt.Sprintf(f, a...)) }
+	count := func(o, n int) {
 		if n > o {
 			r.inc.Add(int64(n - o))
 		} else {
 			r.dec.Add(int64(o - n))
 		}
-	})
-	var res scriptResult
-	problem := func(f string, a ...any) { res.Problems = append(res.Problems, fmt.Sprintf(f, a...)) }
+	}
+	skipFirst := false
+	if sc.Via == "group" {
+		// Group.CreatePool returns the pool started: the script must begin with Start, which is the CreatePool call
+		if len(sc.Script) == 0 || sc.Script[0].K != "start" {
+			vx.Die("script %s: a pool made by Group.CreatePool needs a script that begins with start", sc.Name)
+		}
+		r.grp = workerpool.NewGroup("c16g")
+		fl := &atomic.Bool{}
+		r.done = append(r.done, fl)
+		if !within(settleTimeout, func() { r.wp = r.grp.CreatePool("c16", goOpts(sc.Opts)...) }) {
+			problem("Group.CreatePool did not return within %v", settleTimeout)
+			return res
+		}
+		fl.Store(true)
+		skipFirst = true
+	} else {
+		r.wp = workerpool.New("c16", goOpts(sc.Opts)...)
+	}
+	r.wp.PendingTasksCounter.Subscribe(count)
+	if wc := r.wp.WorkerCount(); wc != sc.Workers {
+		problem("WorkerCount() = %d, options ask for %d", wc, sc.Workers)
+	}
 	for i, d := range sc.Script {
 		launch := func(f func()) {
 			fl := &atomic.Bool{}
@@ -303,6 +458,9 @@ func runScript(sc *scriptCase) scriptResult {
 		case "shutdown":
 			launch(func() { r.wp.Shutdown() })
 		case "start":
+			if i == 0 && skipFirst {
+				break // done above: Group.CreatePool
+			}
 			launch(func() { r.wp.Start() })
 		case "waitsd":
 			launch(func() { r.wp.ShutdownComplete.Wait() })
@@ -320,7 +478,19 @@ func runScript(sc *scriptCase) scriptResult {
 		if !settle(settleTimeout) {
 			problem("directive %d (%s): process did not settle within %v", i, d.K, settleTimeout)
 		}
-		res.Obs = append(res.Obs, r.observe())
+		ob := r.observe()
+		res.Obs = append(res.Obs, ob)
+		// never more tasks executing than workers; at the marked point of an all-busy script every worker executes one
+		if g := int(r.inGate.Load()); g > sc.Workers {
+			problem("directive %d: %d tasks execute concurrently on %d workers", i, g, sc.Workers)
+		} else if sc.BusyAt > 0 && i == sc.BusyAt && g != sc.Workers {
+			problem("directive %d: %d of %d workers execute a task although %d gated tasks were accepted", i, g, sc.Workers, ob.NAcc)
+		}
+		if r.grp != nil {
+			if gc := r.grp.PendingChildrenCounter.Get(); (gc != 0) != (ob.Pending != 0) || gc < 0 || gc > 1 {
+				problem("directive %d: group counter %d with pool counter %d", i, gc, ob.Pending)
+			}
+		}
 	}
 	// Go-side oracle on the final state (every script ends with: release all holds, Shutdown, ShutdownComplete.Wait)
 	last := res.Obs[len(res.Obs)-1]
@@ -396,13 +566,12 @@ func natList(x []int) string { return vx.ListOf(x, func(v int) string { return f
 
 func scriptCoq(sc *scriptCase, res scriptResult) string {
 	prog := vx.ListOf(sc.Prog, natList)
-	cfg := fmt.Sprintf("(repaired %d %s %s)", sc.Workers, vx.Bool(sc.Cancel), prog)
 	obs := vx.ListOf(res.Obs, func(o obsT) string {
 		return fmt.Sprintf("mkObs %s (%d)%%Z %s %d %d %s %s", vx.Bool(o.Running), o.Pending, natList(o.Ran), o.NAcc, o.NCanc, natList(o.Rej),
 			vx.ListOf(o.Done, vx.Bool))
 	})
-	return fmt.Sprintf("CScript %s %s %s %s %s %s", cfg, vx.ListOf(sc.Gated, vx.Bool), vx.Bool(sc.Panic),
-		vx.ListOf(sc.Script, dirCoq), obs, natList(res.FinalCanc))
+	return fmt.Sprintf("CScriptO %d %s %s %s %s %s %s %s", sc.NCPU, vx.Bool(sc.Via == "group"), optsCoq(sc.Opts), prog,
+		vx.ListOf(sc.Gated, vx.Bool), vx.ListOf(sc.Script, dirCoq), obs, natList(res.FinalCanc))
 }
 
 var cleanup = []dirT{{K: "holdsub"}, {K: "holddisp"}, {K: "gate"}, {K: "shutdown"}, {K: "waitsd"}}
@@ -415,26 +584,89 @@ func directed() []*scriptCase {
 	var out []*scriptCase
 	for _, w := range []int{1, 2} {
 		out = append(out,
-			&scriptCase{Name: "D16a-submit-parked-after-check", Workers: w, Panic: true, Prog: [][]int{{}, {}}, Gated: []bool{false, false},
+			&scriptCase{Name: "D16a-submit-parked-after-check", Opts: explicitOpts(w, false, true), Prog: [][]int{{}, {}}, Gated: []bool{false, false},
 				Script: []dirT{{K: "start"}, {K: "holdsub", B: true}, sub(0), {K: "shutdown"}, sub(1), {K: "waitsd"}, {K: "holdsub"}, {K: "waitzero"}}},
-			&scriptCase{Name: "D16b-dispatcher-parked-before-wait", Workers: w, Panic: true, Prog: [][]int{{}, {}}, Gated: []bool{false, false},
+			&scriptCase{Name: "D16b-dispatcher-parked-before-wait", Opts: explicitOpts(w, false, true), Prog: [][]int{{}, {}}, Gated: []bool{false, false},
 				Script: []dirT{{K: "holddisp", B: true}, {K: "start"}, {K: "shutdown"}, sub(0), {K: "holddisp"}, {K: "waitsd"}}},
-			&scriptCase{Name: "D16b-dispatcher-parked-with-push", Workers: w, Panic: true, Prog: [][]int{{}, {}}, Gated: []bool{false, false},
+			&scriptCase{Name: "D16b-dispatcher-parked-with-push", Opts: explicitOpts(w, false, true), Prog: [][]int{{}, {}}, Gated: []bool{false, false},
 				Script: []dirT{{K: "start"}, {K: "holddisp", B: true}, sub(0), sub(1), {K: "shutdown"}, {K: "holddisp"}, {K: "waitsd"}}},
-			&scriptCase{Name: "D16c-start-while-draining-nested", Workers: w, Panic: true, Prog: [][]int{{2, 3}, {3}, {}, {}}, Gated: []bool{true, true, false, false},
+			&scriptCase{Name: "D16c-start-while-draining-nested", Opts: explicitOpts(w, false, true), Prog: [][]int{{2, 3}, {3}, {}, {}}, Gated: []bool{true, true, false, false},
 				Script: []dirT{{K: "start"}, {K: "gate", B: true}, sub(0), sub(1), sub(2), {K: "shutdown"}, {K: "start"}, sub(3), {K: "gate"}, sub(2), {K: "waitzero"}}},
-			&scriptCase{Name: "D16c-start-while-draining-cancel", Workers: w, Cancel: true, Panic: true, Prog: [][]int{{2, 3}, {3}, {}, {}}, Gated: []bool{true, true, false, false},
+			&scriptCase{Name: "D16c-start-while-draining-cancel", Opts: explicitOpts(w, true, true), Prog: [][]int{{2, 3}, {3}, {}, {}}, Gated: []bool{true, true, false, false},
 				Script: []dirT{{K: "start"}, {K: "gate", B: true}, sub(0), sub(1), sub(2), sub(3), {K: "shutdown"}, {K: "start"}, {K: "start"}, {K: "gate"}, sub(2)}},
 		)
 	}
 	for _, s := range out {
 		s.Script = append(s.Script, cleanup...)
+		s.fin()
+	}
+	return out
+}
+
+// All-workers-busy family (round 2): for every worker count around and above the machine-derived constants (and for the
+// default, i.e. WithWorkerCount left out), pools made by New and by Group.CreatePool, cancel-on-shutdown on/off (given
+// explicitly, also against the group's default): every worker is made busy with a gated task that re-submits (nested
+// Submit) when it is released, a backlog of accepted tasks waits behind them, then Shutdown, then the gate opens. In the
+// code as it is, Shutdown returns at once (all signals fit the channel), the re-submits are rejected, the backlog is run
+// (cancel off) or cancelled (cancel on) and the pool completes; the model runs the same script for the same n.
+//   variant "nested": the gated tasks themselves arrive through nested Submits that were accepted before Shutdown.
+//   tail "restart": ShutdownComplete.Wait, Start, two more submits (stale-signal drain at this worker count).
+func allBusy(idx int, w int, omitWorkers bool, via string, cancel bool) *scriptCase {
+	sc := &scriptCase{Via: via, Prog: [][]int{{2}, {0}, {}, {}}, Gated: []bool{true, false, false, false}}
+	if !omitWorkers {
+		sc.Opts = append(sc.Opts, optT{K: "workers", N: w})
+	}
+	// the cancel option explicitly, whatever the default of the constructor is; panic option for task identities
+	sc.Opts = append(sc.Opts, optT{K: "panic", B: true}, optT{K: "cancel", B: cancel})
+	nested, restart := idx%3 == 1, idx%2 == 1
+	sc.Name = fmt.Sprintf("allbusy-w%d-%s-cancel=%v", w, via, cancel)
+	if omitWorkers {
+		sc.Name += "-default-workers"
+	}
+	sc.Script = []dirT{{K: "start"}, {K: "gate", B: true}}
+	for i := 0; i < w; i++ {
+		if nested {
+			sc.Script = append(sc.Script, sub(1))
+		} else {
+			sc.Script = append(sc.Script, sub(0))
+		}
+	}
+	sc.BusyAt = len(sc.Script) - 1
+	sc.Script = append(sc.Script, sub(3), sub(3), sub(3), dirT{K: "shutdown"}, dirT{K: "gate"})
+	if restart {
+		sc.Script = append(sc.Script, dirT{K: "waitsd"}, dirT{K: "start"}, sub(3), sub(2))
+	}
+	sc.Script = append(sc.Script, cleanup...)
+	return sc.fin()
+}
+
+func allBusyFamily() []*scriptCase {
+	var out []*scriptCase
+	idx := 0
+	add := func(w int, omit bool) {
+		for k, cancel := range []bool{false, true} {
+			via := []string{"group", "new"}[(idx+k)%2]
+			out = append(out, allBusy(idx, w, omit, via, cancel))
+		}
+		idx++
+	}
+	for _, w := range machineWorkerCounts() {
+		add(w, false)
+	}
+	add(2*runtime.NumCPU(), true)
+	// the small end with both constructors and both flag values
+	for _, w := range []int{1, 2, 3} {
+		add(w, false)
+		add(w, false)
 	}
 	return out
 }
 
 func randomScript(rng *vx.Rng, idx int) *scriptCase {
 	sc := &scriptCase{Name: fmt.Sprintf("rnd%d", idx), Workers: vx.Pick(rng, []int{1, 1, 2, 2, 3, 4}), Cancel: rng.Bool(), Panic: rng.Chance(4, 5)}
+	if rng.Chance(1, 20) {
+		sc.Workers = vx.Pick(rng, append(machineWorkerCounts(), 2*runtime.NumCPU()))
+	}
 	const nt = 6
 	sc.Prog = make([][]int, nt)
 	sc.Gated = make([]bool, nt)
@@ -515,6 +747,17 @@ func randomScript(rng *vx.Rng, idx int) *scriptCase {
 		}
 	}
 	sc.Script = append(sc.Script, cleanup...)
+	// how the pool is made: by New or (when the script begins with Start) through a group; options in a random representation
+	sc.Via = "new"
+	if sc.Script[0].K == "start" && rng.Chance(2, 5) {
+		sc.Via = "group"
+	}
+	w, c, p := sc.Workers, sc.Cancel, sc.Panic
+	sc.Opts = representOpts(rng, sc.Via, w, c, p)
+	sc.fin()
+	if sc.Workers != w || sc.Cancel != c || sc.Panic != p {
+		vx.Die("representOpts: %v does not resolve to (%d,%v,%v)", sc.Opts, w, c, p)
+	}
 	return sc
 }
 
@@ -523,6 +766,8 @@ func randomScript(rng *vx.Rng, idx int) *scriptCase {
 type freeCase struct {
 	Idx        int    `json:"idx"`
 	Seed       uint64 `json:"seed"`
+	Via        string `json:"via"`
+	Opts       []optT `json:"opts"`
 	Workers    int    `json:"workers"`
 	Cancel     bool   `json:"cancel"`
 	Panic      bool   `json:"panic_opt"`
@@ -551,8 +796,21 @@ func runFree(fc *freeCase) freeResult {
 	}
 	curHooks.Store(h)
 	defer curHooks.Store(nil)
-	wp := workerpool.New("c16free", workerpool.WithWorkerCount(fc.Workers), workerpool.WithCancelPendingTasksOnShutdown(fc.Cancel),
-		workerpool.WithPanicOnSubmitAfterShutdown(fc.Panic))
+	var wp *workerpool.WorkerPool
+	var res freeResult
+	problem := func(f string, a ...any) { res.Problems = append(res.Problems, fmt.Sprintf(f, a...)) }
+	if fc.Via == "group" {
+		grp := workerpool.NewGroup("c16freeg")
+		if !within(freeBound, func() { wp = grp.CreatePool("c16free", goOpts(fc.Opts)...) }) {
+			problem("Group.CreatePool did not return within %v", freeBound)
+			return res
+		}
+	} else {
+		wp = workerpool.New("c16free", goOpts(fc.Opts)...)
+	}
+	if wc := wp.WorkerCount(); wc != fc.Workers {
+		problem("WorkerCount() = %d, options ask for %d", wc, fc.Workers)
+	}
 	var inc, dec atomic.Int64
 	wp.PendingTasksCounter.Subscribe(func(o, n int) {
 		if n > o {
@@ -594,8 +852,6 @@ func runFree(fc *freeCase) freeResult {
 			accepted[id].Store(1)
 		}
 	}
-	var res freeResult
-	problem := func(f string, a ...any) { res.Problems = append(res.Problems, fmt.Sprintf(f, a...)) }
 	wp.Start()
 	var wg sync.WaitGroup
 	for g := 0; g < fc.Submitters; g++ {
@@ -713,12 +969,13 @@ func main() {
 	rng := vx.NewRng(*seed)
 	st := vx.NewStats("a script is non-trivial if it accepts >= 2 tasks and contains a Shutdown before the clean-up; a free run if >= 1 task was submitted while a Shutdown/Start cycle ran; distinct = distinct (config, script) / (config, seed)")
 	cf := &vx.CasesFile{
-		Header: "From Coq Require Import List ZArith Bool.\nFrom Verif.C16_Pool Require Import Model Corr.\nImport ListNotations.\n",
+		Header: "From Coq Require Import List ZArith Bool.\nFrom Verif.C16_Pool Require Import Model Options Corr.\nImport ListNotations.\n",
 		Type:   "case",
 		Footer: "Definition M := Eval vm_compute in mismatches cases.\nPrint M.",
 	}
 	var scripts []*scriptCase
 	scripts = append(scripts, directed()...)
+	scripts = append(scripts, allBusyFamily()...)
 	sr := rng.Fork()
 	for i := 0; i < *nScripts; i++ {
 		scripts = append(scripts, randomScript(sr, i))
@@ -730,6 +987,13 @@ func main() {
 			continue
 		}
 		res := runScript(sc)
+		if len(res.Obs) == 0 { // the pool could not even be made
+			failures++
+			cf.Add("CFree false [] [] [] 1%Z false")
+			st.CaseIndex = append(st.CaseIndex, sc)
+			st.Fail(map[string]any{"kind": "script", "case": sc, "problems": res.Problems})
+			continue
+		}
 		cf.Add(scriptCoq(sc, res))
 		st.CaseIndex = append(st.CaseIndex, sc)
 		hasSd := false
@@ -741,8 +1005,13 @@ func main() {
 		}
 		last := res.Obs[len(res.Obs)-1]
 		st.Case(fmt.Sprintf("%v", *sc), hasSd && last.NAcc >= 2)
-		st.Count(fmt.Sprintf("script:workers=%d", sc.Workers))
+		st.Count("script:workers=" + workerClass(sc.Workers))
 		st.Count(fmt.Sprintf("script:cancel=%v", sc.Cancel))
+		st.Count("script:via=" + sc.Via)
+		countOpts(st, "script", sc.Via, sc.Opts)
+		if strings.HasPrefix(sc.Name, "allbusy") {
+			st.Count("script:all-workers-busy-at-shutdown")
+		}
 		if last.NCanc > 0 {
 			st.Count("script:with-cancelled-tasks")
 		}
@@ -761,7 +1030,18 @@ func main() {
 	fr := rng.Fork()
 	for i := 0; i < *nFree; i++ {
 		fc := &freeCase{Idx: i, Seed: fr.U64(), Workers: 1 + fr.Intn(4), Cancel: fr.Bool(), Panic: fr.Chance(4, 5), Submitters: 1 + fr.Intn(4),
-			PerSub: 5 + fr.Intn(25), Cycles: fr.Intn(4), NoWait: fr.Chance(1, 2), Noise: fr.Chance(2, 3)}
+			PerSub: 5 + fr.Intn(25), Cycles: fr.Intn(4), NoWait: fr.Chance(1, 2), Noise: fr.Chance(2, 3), Via: "new"}
+		or := fr.Fork()
+		if or.Chance(1, 5) {
+			fc.Workers = vx.Pick(or, append(machineWorkerCounts(), 2*runtime.NumCPU()))
+		}
+		if or.Chance(2, 5) {
+			fc.Via = "group"
+		}
+		fc.Opts = representOpts(or, fc.Via, fc.Workers, fc.Cancel, fc.Panic)
+		if w, c, p := resolve(fc.Via, fc.Opts); w != fc.Workers || c != fc.Cancel || p != fc.Panic {
+			vx.Die("representOpts: %v does not resolve to (%d,%v,%v)", fc.Opts, fc.Workers, fc.Cancel, fc.Panic)
+		}
 		if failures >= 8 {
 			st.Count("free:skipped-after-failures")
 			continue
@@ -769,14 +1049,16 @@ func main() {
 		res := runFree(fc)
 		st.CaseIndex = append(st.CaseIndex, fc)
 		st.Case(fmt.Sprintf("%v", *fc), fc.Cycles > 0)
-		st.Count(fmt.Sprintf("free:workers=%d", fc.Workers))
+		st.Count("free:workers=" + workerClass(fc.Workers))
+		st.Count("free:via=" + fc.Via)
+		countOpts(st, "free", fc.Via, fc.Opts)
 		st.Count(fmt.Sprintf("free:cycles=%d", fc.Cycles))
 		if len(res.Cancelled) > 0 {
 			st.Count("free:with-cancelled-tasks")
 		}
 		if fc.Panic || len(res.Problems) > 0 {
-			cf.Add(fmt.Sprintf("CFree %s %s %s %s (%d)%%Z %s", vx.Bool(fc.Cancel), natList(res.Accepted), natList(res.Ran), natList(res.Cancelled),
-				res.Pending, vx.Bool(res.Complete)))
+			cf.Add(fmt.Sprintf("CFreeO %d %s %s %s %s %s (%d)%%Z %s", runtime.NumCPU(), vx.Bool(fc.Via == "group"), optsCoq(fc.Opts),
+				natList(res.Accepted), natList(res.Ran), natList(res.Cancelled), res.Pending, vx.Bool(res.Complete)))
 		} else {
 			cf.Add("CFree true [] [] [] 0%Z true") // identities unobservable without the panic option: judged by the Go oracle only
 		}
@@ -790,6 +1072,50 @@ func main() {
 	}
 	if err := st.Write(*stats); err != nil {
 		vx.Die("write stats: %v", err)
+	}
+}
+
+// worker counts of the input distribution, relative to the machine-derived constants
+func workerClass(w int) string {
+	n := runtime.NumCPU()
+	switch {
+	case w <= 4:
+		return fmt.Sprint(w)
+	case w < 2*n:
+		return "5..2*NumCPU-1"
+	case w == 2*n:
+		return "2*NumCPU(default)"
+	case w <= 4*n:
+		return "2*NumCPU+1..4*NumCPU"
+	}
+	return ">4*NumCPU"
+}
+
+// which options a case sets explicitly / leaves to the default / repeats
+func countOpts(st *vx.Stats, pre, via string, opts []optT) {
+	seen := map[string]int{}
+	for _, o := range opts {
+		seen[o.K]++
+		if o.K == "workers" {
+			st.Count(pre + ":opt:workers=explicit")
+		} else {
+			st.Count(fmt.Sprintf("%s:opt:%s=%v", pre, o.K, o.B))
+		}
+	}
+	for _, k := range []string{"workers", "cancel", "panic"} {
+		if seen[k] == 0 {
+			st.Count(pre + ":opt:" + k + "=omitted")
+		} else if seen[k] > 1 {
+			st.Count(pre + ":opt:" + k + "=repeated(last-wins)")
+		}
+	}
+	if via == "group" {
+		for i := len(opts) - 1; i >= 0; i-- {
+			if opts[i].K == "cancel" {
+				st.Count(fmt.Sprintf("%s:group-pool-explicit-cancel=%v", pre, opts[i].B))
+				break
+			}
+		}
 	}
 }
 
